@@ -447,12 +447,18 @@ func (m *Manager) handlePeerHeartbeat(msg *hapb.HeartbeatMessage) {
 						"local_priority", sm.Priority(),
 						"peer_priority", peerStatus.Priority)
 				}
+				continue
 			}
-		} else {
-			transition := sm.PeerHeartbeatUpdate(peerStatus.Priority, msg.NodeId, SRGState(peerStatus.State))
-			if transition != nil {
-				m.publishTransition(transition)
-			}
+			// First contact while already ACTIVE or STANDBY (forced
+			// switchover out of STANDBY_ALONE): no election was run, so
+			// apply the regular heartbeat rules to this heartbeat instead
+			// of only recording it; otherwise two active nodes stay
+			// dual-active until the next heartbeat.
+		}
+
+		transition := sm.PeerHeartbeatUpdate(peerStatus.Priority, msg.NodeId, SRGState(peerStatus.State))
+		if transition != nil {
+			m.publishTransition(transition)
 		}
 	}
 }
